@@ -29,7 +29,9 @@ TECHNIQUE = ("Coq proof over ALL schedules of an interleaving semantics (ThreadP
              "with exact reference-count bookkeeping and racing first use of the hash seed")
 RULE = ("rc cases: N in {2,4,8,16} workers x K in 50..100000 pseudo-random get/put on 1..4 shared nodes, three ways of "
         "releasing the creator's reference (after join / racing / handed to a worker), 0..3 extra references checked exactly "
-        "after the join; cont cases: one thread hands references to its own array/object and lets the library release them "
+        "after the join; last cases: N threads own the N (= all) references of a fresh node and release them at the same "
+        "moment, many rounds; sched: the model driver explores ALL schedules of small configurations with the regenerated programs; "
+        "cont cases: one thread hands references to its own array/object and lets the library release them "
         "(put of the container, array_del_idx, array_put_idx, object_del, object_add replacing) while N workers get/put the "
         "member directly; seed cases: N threads released by a barrier on the first use of the key hash in a fresh process, "
         "random keys; seedx cases: the same with the first results of json_c_get_random_seed scripted (sentinel -1 first / "
@@ -109,11 +111,13 @@ def coq_extra():
 
 def extra_coverage():
     return dict(translator=dict(_tr_info), tolerated_seed_read_reports=_stats["volrd_cases"],
-                refcount_operations=_stats["ops"], crashed_cases=_stats["crashed_cases"])
+                refcount_operations=_stats["ops"], crashed_cases=_stats["crashed_cases"],
+                model_counterexample_schedule=_stats.get("model_schedule"))
 
 
 # ------------------------------------------------------------------ generator
 MODES = ["join", "race", "hand"]
+LAST_ROUNDS = [(2, 2000), (3, 2000), (4, 1500), (8, 300), (16, 80)]
 CONT_OPS = ["putc_arr", "putc_obj", "adel", "aput", "odel", "oadd"]
 ARRAY_OPS, OBJECT_OPS = ["putc_arr", "adel", "aput"], ["putc_obj", "odel", "oadd"]
 
@@ -172,6 +176,10 @@ def gen(rng, tier):
                         {"kind": "rc-" + mode}))
     if quick:
         out.append(("thr rc 16 100000 1 race 1 %d" % rng.randrange(1, 1 << 20), {"kind": "rc-race"}))
+    # --- the LAST references released concurrently: N threads own the N (= all) references
+    for n, rounds in LAST_ROUNDS:
+        for _ in range(1 if quick else 3):
+            out.append(("thr last %d %d %d" % (n, rounds if quick else rounds * 2, rng.randrange(1, 1 << 20)), {"kind": "last"}))
     # --- counts changed by container paths (destroy / empty / overwrite a container holding the
     #     node) in one thread while the others get/put the node directly
     for op in CONT_OPS + ["mix"]:
@@ -196,13 +204,18 @@ def gen(rng, tier):
         for size in ((10, 120) if quick else (10, 60, 120, 600)):
             out.append(("thr trees %d %d %d" % (n, size, rng.randrange(1, 1 << 20)), {"kind": "trees"}))
     rng.shuffle(out)
+    # model side only: ALL schedules of small configurations with the regenerated programs (first,
+    # so that a counterexample schedule heads the report when the proofs no longer check)
+    out.insert(0, ("thr sched all", {"kind": "sched"}))
     return out
 
 
 # ------------------------------------------------------------------ oracle
 def parse_obs(o):
-    t = o.split(" ")
+    t = o.strip().split(" ")
     d = {"kind": t[0]}
+    if t[0] == "sched":
+        return d
     i = 1
     while i < len(t):
         if "=" in t[i]:
@@ -241,6 +254,16 @@ def oracle(line, meta, impl):
         if d["destroyed"] != m or d["put1"] != m:
             return ("destroy-count", "%d nodes: delete callback ran %d times, json_object_put returned 1 %d times (want exactly once each)" % (m, d["destroyed"], d["put1"]))
         return None
+    if a[1] == "sched":
+        return None if d.get("kind") == "sched" else ("malformed", "unexpected driver output: " + impl[:120])
+    if a[1] == "last":
+        n, r = int(a[2]), int(a[3])
+        if d.get("kind") != "last" or d.get("rounds") != r:
+            return ("malformed", "unexpected driver output: " + impl[:120])
+        if d["destroyed"] != r or d["put1"] != r or d["bad"] != 0:
+            return ("last-release", "%d threads released the last %d references of a node together, %d rounds: delete callback ran %d times, "
+                    "json_object_put returned 1 %d times, %d rounds not exactly once" % (n, n, r, d["destroyed"], d["put1"], d["bad"]))
+        return None
     if a[1] == "cont":
         if d.get("kind") != "cont":
             return ("malformed", "unexpected driver output: " + impl[:120])
@@ -272,6 +295,10 @@ def oracle(line, meta, impl):
 
 
 def classify(line, meta, mo, co):
+    if line.startswith("thr sched") and "VIOLATED" in mo:
+        _stats["model_schedule"] = mo
+        print("C18: the regenerated micro-operation programs have a schedule that breaks the property: " + mo)
+        return "model-schedule"      # the regenerated programs have a schedule that breaks a clause
     return None
 
 
@@ -288,6 +315,11 @@ def nontrivial(line, meta, impl):
     if a[1] == "cont":
         _stats["ops"] += int(a[2]) * int(a[3]) + 2 * int(a[5])
         return tuple(a[1:])
+    if a[1] == "last":
+        _stats["ops"] += int(a[2]) * int(a[3])
+        return tuple(a[1:])
+    if a[1] == "sched":
+        return None
     if a[1] == "rc":
         _stats["ops"] += int(a[2]) * int(a[3])
         return ("rc", a[2], a[4], a[5], a[6], len(a[3]), a[7])
@@ -399,6 +431,9 @@ def search(rng, broken_lines):
         for n in (2, 8, 16):
             for _ in range(2):
                 out.append(("thr cont %d 20000 %s 10000 %d" % (n, op, rng.randrange(1, 1 << 20)), {"kind": "cont-" + op}))
+    for n, rounds in LAST_ROUNDS:
+        for _ in range(3):
+            out.append(("thr last %d %d %d" % (n, rounds * 3, rng.randrange(1, 1 << 20)), {"kind": "last"}))
     for mode in MODES:
         for n in (16, 8, 4, 2):
             out.append(("thr rc %d %d 1 %s %d %d" % (n, 60000, mode, rng.choice([0, 2]), rng.randrange(1, 1 << 20)), {"kind": "rc-" + mode}))
